@@ -14,7 +14,7 @@ import (
 )
 
 func init() {
-	register("C09", "Decides structural conditions of schema merging in federation/merge_schemas.go and schema.go: the five sibling merges (input fields, fields, possible types, enum values, types) treat an entry present on one side only uniformly - kept exactly under mode == Union, dropped otherwise - and always keep an entry present on both sides; a one-sided non-null input field is rejected; mergeTypeRefs implements the nullability lattice (result non-null iff isInput || (aNonNull && bNonNull), evaluated over all valuations of the three atoms by abstract evaluation of the guard expression), recurses with the same isInput, and mergeFields / mergeInputFields pass false / true; versions of one service are merged with Intersection inside the per-service loop and services with Union afterwards; every iteration over a map that feeds output is sorted first; the kind tables of mergeTypeRefs, typeRef.String, lookupType(Ref) and parseSchema agree and are contained in mergeTypes'; processSchemaVersions hands every version of every service to the intersection. Not decided: the end-to-end consequence (a gateway-valid query validates on every version) and closure of referenced types, which also depend on the input schemas.", c09)
+	register("C09", "Decides structural conditions of schema merging in federation/merge_schemas.go and schema.go: the five sibling merges (input fields, fields, possible types, enum values, types) treat an entry present on one side only uniformly - kept exactly under mode == Union, dropped otherwise - and always keep an entry present on both sides; a one-sided non-null input field is rejected; mergeTypeRefs implements the nullability lattice (result non-null iff isInput || (aNonNull && bNonNull), evaluated over all valuations of the three atoms by abstract evaluation of the guard expression), recurses with the same isInput, and mergeFields / mergeInputFields pass false / true; versions of one service are merged with Intersection inside the per-service loop and services with Union afterwards; every iteration over a map that feeds output is sorted first; the kind tables of mergeTypeRefs, typeRef.String, lookupType(Ref) and parseSchema agree and are contained in mergeTypes'; processSchemaVersions hands every version of every service to the intersection; mergeTypeRefs only returns references it built or merged recursively, never one of its inputs unmerged. Not decided: the end-to-end consequence (a gateway-valid query validates on every version) and closure of referenced types, which also depend on the input schemas.", c09)
 }
 
 // evalBool evaluates a rendered boolean expression with &&, ||, ! and
@@ -287,6 +287,10 @@ func c09(c *an.Ctx) {
 				o.Fail(p.Pos(fn.Pos()), "%s: expected tests of len(group) and of the merge mode, found %d/%d", nm, nS, nU)
 			}
 		}
+	})
+
+	c.Check("R-FRESH", "mergeTypeRefs only returns references it built or merged recursively, never one of its inputs unmerged", 3, func(o *an.O) {
+		ruleMergedTypeRefIsBuilt(c, o)
 	})
 
 	c.Check("R-POST", "processSchemaVersions hands every version of every service to the intersection (the collecting loops append on every iteration)", 3, func(o *an.O) {
